@@ -305,7 +305,7 @@ func (pi *pendingWritesIterator) Rewind() {
 // Seek positions the buffered-write iterator at the first entry matching key order.
 func (pi *pendingWritesIterator) Seek(key []byte) {
 	pi.nextIdx = sort.Search(len(pi.entries), func(idx int) bool {
-		cmp := bytes.Compare(pi.entries[idx].Key, key)
+		cmp := utils.CompareKeys(pi.entries[idx].Key, key)
 		if !pi.reversed {
 			return cmp >= 0
 		}
@@ -353,7 +353,7 @@ func (txn *Txn) newPendingWritesIterator(reversed bool) *pendingWritesIterator {
 		entries = append(entries, &dup)
 	}
 	sort.Slice(entries, func(i, j int) bool {
-		cmp := bytes.Compare(entries[i].Key, entries[j].Key)
+		cmp := utils.CompareKeys(entries[i].Key, entries[j].Key)
 		if !reversed {
 			return cmp < 0
 		}
